@@ -128,12 +128,10 @@ def forbidden_scan():
 
 def proof_step(pid, thorough=False):
     """Returns dict(ok, obligations, discharged, theorems, problems, log, checker_cmd)."""
-    with coq_lock():
-        return _proof_step(pid, thorough)
+    return _proof_step(pid, thorough)
 
 
 def _proof_step(pid, thorough):
-    ensure_makefile()
     prop_rel = "theories/Properties/%s.v" % pid
     prop_src = open(os.path.join(COQ, prop_rel)).read()
     theorems = re.findall(r"^\s*Theorem\s+([A-Za-z0-9_']+)", prop_src, re.M)
@@ -142,7 +140,9 @@ def _proof_step(pid, thorough):
     checker_cmd = "make -C coq %s && coqc -Q theories SV %s (Print Assumptions audit)%s" % (
         vo, prop_rel, " && coqchk -o -silent SV.Properties.%s" % pid if thorough else "")
     t0 = time.time()
-    rc, out = sh(["make", "-j8", vo], cwd=COQ, timeout=3000)
+    with coq_lock():      # only the build writes under coq/; the audit below works on private copies
+        ensure_makefile()
+        rc, out = sh(["make", "-j8", vo], cwd=COQ, timeout=3000)
     log = out[-4000:]
     discharged = 0
     if rc != 0:
@@ -155,7 +155,10 @@ def _proof_step(pid, thorough):
             discharged = max(discharged, 0)
     else:
         # re-run coqc on the property file to obtain the Print Assumptions output of THIS run
-        rc2, out2 = sh(["coqc", "-Q", "theories", "SV", prop_rel], cwd=COQ, timeout=1200)
+        import tempfile, shutil
+        tmpd = tempfile.mkdtemp(prefix="sv-audit-")
+        rc2, out2 = sh(["coqc", "-Q", "theories", "SV", "-o", os.path.join(tmpd, "%s.vo" % pid), prop_rel], cwd=COQ, timeout=1200)
+        shutil.rmtree(tmpd, ignore_errors=True)
         log = out2[-4000:]
         if rc2 != 0:
             problems.append("coqc failed on %s" % prop_rel)
@@ -466,13 +469,13 @@ def main_check(pid, argv):
         kid = known_id(v)
         if not oracle_ok(v):
             if kid and kid in known_ids:
+                # a listed finding: reported as KNOWN-FINDING; the correspondence is still compared
                 seen_known.setdefault(kid, (prof, c, i, m, v))
+                if i != m:
+                    corr_fail.append((prof, c, i, m, v))
                 continue
             oracle_fail.append((prof, c, i, m, v))
         elif i != m:
-            if kid and kid in known_ids:
-                seen_known.setdefault(kid, (prof, c, i, m, v))
-                continue
             corr_fail.append((prof, c, i, m, v))
     n = 0
     if oracle_fail:
